@@ -11,9 +11,13 @@ def build(tier):
     from props import kernels
     krep = {}
     groups += kernels.hessqr_groups(tier, krep) + kernels.dsqr_groups(tier, krep) + kernels.bkldlt_groups(tier, krep) + kernels.tridiagqr_groups(krep) + kernels.eigen_groups(tier, krep)
+    # index safety / termination of the dense eigen-decompositions the solvers call on H (groups shared with C09)
+    from props import C09
+    have = set(g.name for g in groups)
+    groups += [g for g in C09.build(tier)[0] if g.name.split(".")[0] in ("tridiag", "schur", "hesseigen") and g.name not in have]
     report["kernels"] = krep
     meta = {"level": "proof", "trusted_base": SG.TRUSTED, "assumptions": SG.ASSUMPTIONS, "extraction": report,
-            "not_covered": ['NaN-freedom of the Eigen-expression arithmetic as a whole', 'raw-pointer dense kernels (bounded, C08/C09/C10)'],
+            "not_covered": ['NaN-freedom of the Eigen-expression arithmetic as a whole', 'raw-pointer dense kernels beyond the bounded sizes listed (C08/C09/C10 groups)', 'formation of out-of-range pointers that are neither dereferenced nor compared (CBMC generates no obligation for it)'],
             "explanation": "CBMC bounds/pointer checks on arrays allocated with exactly the Eigen size are Eigen's index assertions"}
     return groups, meta
 
